@@ -15,7 +15,12 @@ from robotpy_ext.common_drivers import distance_sensors as ds  # noqa: E402
 from robotpy_ext.common_drivers import distance_sensors_sim as dss  # noqa: E402
 
 MODELS = {"2Y0A02": (ds.SharpIR2Y0A02, dss.SharpIR2Y0A02Sim), "2Y0A21": (ds.SharpIR2Y0A21, dss.SharpIR2Y0A21Sim),
-          "2Y0A41": (ds.SharpIR2Y0A41, dss.SharpIR2Y0A41Sim)}
+          "2Y0A41": (ds.SharpIR2Y0A41, dss.SharpIR2Y0A41Sim),
+          # the same three on MXP channels, and the 2Y0A41 under its legacy public name
+          "2Y0A02@hi": (ds.SharpIR2Y0A02, dss.SharpIR2Y0A02Sim), "2Y0A21@hi": (ds.SharpIR2Y0A21, dss.SharpIR2Y0A21Sim),
+          "2Y0A41@hi": (ds.SharpIR2Y0A41, dss.SharpIR2Y0A41Sim),
+          "2Y0A41@legacy": (getattr(ds, "SharpIRGP2Y0A41SK0F", None), dss.SharpIR2Y0A41Sim)}
+PORTS = {"2Y0A02": 0, "2Y0A21": 1, "2Y0A41": 2, "2Y0A02@hi": 4, "2Y0A21@hi": 5, "2Y0A41@hi": 6, "2Y0A41@legacy": 7}
 SPECIAL = [(-1.0, True), (0.0, True), (-0.0, True), (1e-9, True), (0.00001, True), (7.5, False), (1e300, False),
            (float("inf"), False), (-float("inf"), True)]
 SIM_D = [-5.0, 0.0, 1.0, 4.4, 4.5, 4.6, 9.9, 10.0, 10.1, 17.25, 22.4, 22.5, 22.6, 30.0, 34.9, 35.0, 35.1, 50.0, 79.9, 80.0,
@@ -33,8 +38,8 @@ def main():
     ap.add_argument("--out", required=True)
     a = ap.parse_args()
     out = {"obs": {}, "special": {}, "sim": {}}
-    for port, (name, (cls, simcls)) in enumerate(MODELS.items()):
-        s = cls(port)
+    for name, (cls, simcls) in MODELS.items():
+        s = cls(PORTS[name])
         sim = AnalogInputSim(s.distance)
         obs = []
         for k in range(4096):
